@@ -1618,7 +1618,8 @@ static bool buildInputIsResultValid(ninja::Node* node,
 }
 
 static bool buildCommandIsResultValid(ninja::Command* command,
-                                      const core::ValueType& valueData) {
+                                      const core::ValueType& valueData,
+                                      bool isPhony) {
   BuildValue value = BuildValue::fromValue(valueData);
 
   // If the prior value wasn't for a successful command, recompute.
@@ -1635,8 +1636,15 @@ static bool buildCommandIsResultValid(ninja::Command* command,
   // Check the timestamps on each of the outputs.
   for (unsigned i = 0, e = command->getOutputs().size(); i != e; ++i) {
     // Always rebuild if the output is missing.
+    //
+    // The exception is a phony command which has inputs (an alias): it never
+    // creates its output, and (matching Ninja) it is only out of date when one
+    // of its inputs is, which the engine already tracks through the recorded
+    // input dependencies. Treating it as always out of date would force every
+    // command that consumes the alias to rerun on every build. A phony command
+    // without any inputs and with a missing output is still always dirty.
     auto info = FileInfo::getInfoForPath(command->getOutputs()[i]->getCanonicalPath());
-    if (info.isMissing())
+    if (info.isMissing() && !(isPhony && !command->getInputs().empty()))
       return false;
 
     // Otherwise, the result is valid if file information has not changed.
@@ -2128,7 +2136,9 @@ int commands::executeNinjaBuildCommand(std::vector<std::string> args) {
         if (context.simulate)
           return true;
 
-        return buildCommandIsResultValid(command, value);
+        return buildCommandIsResultValid(
+            command, value,
+            command->getRule() == context.manifest->getPhonyRule());
       }
 
       void updateStatus(core::BuildEngine&, core::Rule::StatusKind status) override {
